@@ -170,12 +170,22 @@ func (h *HttpServer) readHTTPBody(r *http.Request) ([]byte, error) {
 		return body, nil
 	case "zstd", "gzip":
 		decompressedCap := h.maxDecompressedBodySize
+		capIsRequestCap := false
 		if requestCapApplied && (decompressedCap <= 0 || limit < decompressedCap) {
 			decompressedCap = limit
+			capIsRequestCap = true
 		} else if decompressedCap <= 0 && limit > 0 {
 			decompressedCap = limit * 16
 		}
-		return decompressBounded(encoding, body, decompressedCap)
+		out, err := decompressBounded(encoding, body, decompressedCap)
+		var tooLarge *requestBodyTooLargeError
+		if err != nil && !capIsRequestCap && errors.As(err, &tooLarge) {
+			// Only the advertised max_request_bytes cap earns a 413 naming
+			// it; the decompressed-size guard is a plain bad request.
+			return nil, &RpcError{Type: "ValueError", Message: fmt.Sprintf(
+				"Decompressed request body exceeds maximum size of %d bytes", tooLarge.Limit)}
+		}
+		return out, err
 	default:
 		return nil, &unsupportedEncodingError{Encoding: encoding}
 	}
